@@ -316,8 +316,10 @@ class Bicomplex(object):
         return Bicomplex(np.log1p(self.mod_c()), self.arg_c1p())
 
     def expm1(self):
+        # exp(z1) * (cos(z2) + j*sin(z2)) - 1, written without cancellation for small z1, z2
         expz1 = np.expm1(self.z1)
-        return Bicomplex(expz1 * np.cos(self.z2), expz1 * np.sin(self.z2))
+        return Bicomplex(expz1 * np.cos(self.z2) - 2 * np.sin(0.5 * self.z2) ** 2,
+                         (expz1 + 1) * np.sin(self.z2))
 
     def exp(self):
         expz1 = np.exp(self.z1)
